@@ -29,7 +29,7 @@ theorem Timer.WF_advance (tm : Timer) (h : tm.WF) :
   have := (advance_window tm.timing hv hc tm.next ha).2.2.2
   simp [this]
 
-@[simp] theorem argmin_singleton (f : α → Int) (x : α) : argmin f [x] = 0 := rfl
+@[simp] theorem argmin_singleton (f : α → Int) (x : α) : argmin f [x] = 0 := by simp [argmin]
 
 end SV
 
